@@ -67,6 +67,17 @@ def main():
         ses.undecided.append('%s: %s' % (type(e).__name__, str(e)[:2000]))
     except Exception as e:
         ses.undecided.append('internal error: ' + traceback.format_exc()[-3000:])
+    # native baseline: the concrete oracle that confirms this property's counterexamples is also run when the solver found nothing.  It validates the
+    # oracle against the implementation on every run (an oracle that fires on a tree the solver accepts would make confirmations worthless) and
+    # counts as traces validated against the implementation; a native-only finding is reported as undecided, never as a violation.
+    if not ses.violations and not ses.undecided and getattr(mod, 'BASELINE', None):
+        from vf import replay as _rp
+        for kind in mod.BASELINE:
+            v = {'what': 'native baseline (%s)' % kind, 'replay': {'kind': kind}}
+            try: r = _rp.PY_CONFIRM[kind](ses, v)
+            except Exception as e: r = None; ses.notes.append('native baseline %s failed to run: %s' % (kind, str(e)[:200]))
+            if r: ses.undecided.append('the native oracle for %s observes a violation that no solver query returned: %s' % (kind, json.dumps(v.get('native'), default=str)[:400]))
+            else: ses.samples.insert(0, {'native_baseline': kind, 'result': 'oracle agrees with the implementation on its whole scenario set'})
     # violations -> native replay -> known findings
     kf = [k for k in known_findings() if k['property'] == pid]
     confirmed = []
